@@ -170,7 +170,7 @@ def judge(run, cases, res):
         if c["fam"] == "hist":
             run.cov["events_validated"] = run.cov.get("events_validated", 0) + len(c["events"])
             for p in step_problems(c):
-                run.failing({"kind": "projection", "what": p.split(":")[0] if p.startswith("stamp") else p.split(": ", 1)[-1].split(" ")[0]}, [c],
+                run.failing({"kind": "projection"}, [c],
                             "case %d (%s): %s" % (cid, c["class"], p), theorem="projection of the implementation's files", found_input=False)
         if not spec:
             if c["fam"] == "names":
@@ -242,17 +242,20 @@ def run_cases(run, args, tag, trace=False):
 
 
 def check(run):
-    n = 700 if run.tier == "quick" else 12000
+    n = 800 if run.tier == "quick" else 12000
     run.proof_obligations()
     cases = run_cases(run, ["-seed", str(run.seed), "-n", str(n), "-tier", run.tier], run.tier)
     cleanup = cleanup_variant(cases)
     run.cov["model_variant"] = "cleanup=%s (addOrUpdateTransportServer %s a stale passthrough pair)" % (cleanup, "removes" if cleanup else "keeps")
     startup_obligations(run, cases)
     ev = [c for c in cases if c["fam"] in ("hist", "names")]
-    shard = 250
-    for k in range(0, len(ev), shard):
-        part = ev[k:k + shard]
-        judge(run, part, evaluate(run, part, "%s_%d" % (run.tier, k // shard), cleanup))
+    shard = 120
+    parts = [ev[k:k + shard] for k in range(0, len(ev), shard)]
+    from concurrent.futures import ThreadPoolExecutor
+    with ThreadPoolExecutor(max_workers=6) as ex:      # coqc runs as a subprocess per shard
+        results = list(ex.map(lambda kp: evaluate(run, kp[1], "%s_%d" % (run.tier, kp[0]), cleanup), enumerate(parts)))
+    for part, res in zip(parts, results):
+        judge(run, part, res)
     for c in [x for x in cases if has_error(x)]:
         judge(run, [c], [])
     for cls in ("witness-collide", "restart-del", "plain"):
@@ -280,6 +283,8 @@ def check(run):
 
 
 def replay(run, path):
+    path = os.path.abspath(path)
+    run.tier = "replay"          # verdict files of this run must not overwrite the replay file being read
     cases = run_cases(run, ["-replay", path], "replay")
     wit = run_cases(run, ["-seed", "1", "-n", "0"], "replay_wit")
     cleanup = cleanup_variant(wit)
